@@ -56,11 +56,21 @@ func (i *IFunc) String() string {
 func (i *IFunc) Type() types.Type {
 	// Cache type if not present.
 	if i.Typ == nil {
+		// The resolver is a function returning a pointer to the function an
+		// IFunc call resolves to; the IFunc has the type of that pointer.
 		typ, ok := i.Resolver.Type().(*types.PointerType)
 		if !ok {
 			panic(fmt.Errorf("invalid resolver type of %q; expected *types.PointerType, got %T", i.Ident(), i.Resolver.Type()))
 		}
-		i.Typ = typ
+		sig, ok := typ.ElemType.(*types.FuncType)
+		if !ok {
+			panic(fmt.Errorf("invalid resolver type of %q; expected pointer to function type, got %v", i.Ident(), typ))
+		}
+		retType, ok := sig.RetType.(*types.PointerType)
+		if !ok {
+			panic(fmt.Errorf("invalid resolver return type of %q; expected *types.PointerType, got %T", i.Ident(), sig.RetType))
+		}
+		i.Typ = retType
 	}
 	return i.Typ
 }
